@@ -3,7 +3,7 @@
    of copy/move assignment, self assignment, copy/move construction of a scoped third object, swap
    and self swap on two objects, from their construction to their destruction.  No operation has a
    precondition, so there is no hypothesis. *)
-From Tetl Require Import Lib.Base C03.Trace C03.Model C03.ModelAgg C03.ProofsAgg.
+From Tetl Require Import Lib.Base C03.Trace C03.Model C03.ModelAgg C03.ProofsAgg C03.ProofsAggSelf.
 
 Theorem C03_agg_lifecycle : forall (fl : bool) (k : nat) (ops : list aop),
   wf_trace (agg_trace fl k ops) = true /\ all_dead (agg_trace fl k ops) = true.
@@ -20,3 +20,9 @@ Theorem C03_agg_verdict : forall (fl : bool) (k : nat) (ops : list aop),
   snd (agg_run_case fl k ops) = (true, 0).
 Proof. exact agg_verdict. Qed.
 Print Assumptions C03_agg_verdict.
+
+(* self assignment and self swap leave every member value unchanged *)
+Theorem C03_agg_self_identity : forall (fl : bool) (k : nat) (ops : list aop),
+  agg_self_checks fl k ops = repeat true (agg_count_self ops).
+Proof. exact agg_self_identity. Qed.
+Print Assumptions C03_agg_self_identity.
